@@ -138,9 +138,11 @@ def exploreClauses (s : DD Float) (eqProbBranch meanValued resolvedOk : Bool) (x
   let dE := (pairs xe).map (fun ab => ab.2 - ab.1)
   let ab := pairs s.allBounds
   let tolM : Float := 1e-3
+  -- classes narrower than the spacing of the doubles around them cannot carry their mass in doubles
+  let wide := ab.all (fun q => q.2 - q.1 > 1e-9 * (1 + absF q.1 + absF q.2))
   [("search_parent_monotone", (pairs xp).all (fun q => q.1 ≤ q.2 + 1e-9)),
-   ("search_class_mass", (dP.zip s.probs).all (fun dp => absF (dp.1 - dp.2 * cond) ≤ tolM)),
-   ("search_equal_mass", !eqProbBranch || dP.all (fun d => absF (d - cond / Float.ofNat s.n) ≤ tolM)),
+   ("search_class_mass", !wide || (dP.zip s.probs).all (fun dp => absF (dp.1 - dp.2 * cond) ≤ tolM)),
+   ("search_equal_mass", !wide || !eqProbBranch || dP.all (fun d => absF (d - cond / Float.ofNat s.n) ≤ tolM)),
    ("search_mean_relation", ((ab.zip dP).zip dE).all (fun x =>
       let a := x.1.1.1; let b := x.1.1.2; let dp := x.1.2; let de := x.2
       let sl := 1e-6 * (1 + maxF (absF a) (absF b)) * (absF dp + 1e-9)
@@ -153,11 +155,59 @@ def exploreClauses (s : DD Float) (eqProbBranch meanValued resolvedOk : Bool) (x
 
 /-! ### constructors -/
 
+/-- result of a constructor op: current object, stack, error -/
+abbrev NewRes := Option (CState Float) × List (CState Float) × Option Err
+
+def floats? (l : List String) : Option (List Float) := l.mapM float?
+
+def unzip2 : List Float → List Float × List Float
+  | a :: b :: t => let r := unzip2 t; (a :: r.1, b :: r.2)
+  | _ => ([], [])
+
+def leafOf? : CState Float → Option (Leaf Float)
+  | .leaf l => some l
+  | _ => none
+
 def newDist (orc : Parent Float) (slot : Nat) (fam : String) (args : List String)
-    (_cur : Option (CState Float)) (stack : List (CState Float)) :
-    Option (Except Err (CState Float × List (CState Float))) :=
-  let mk (r : Except Err (FamSt Float)) : Option (Except Err (CState Float × List (CState Float))) :=
-    some (r.map (fun f => (CState.leaf (.fam slot f), stack)))
+    (cur : Option (CState Float)) (stack : List (CState Float)) : Option NewRes :=
+  let mk (r : Except Err (FamSt Float)) : Option NewRes :=
+    match r with
+    | .ok f => some (some (CState.leaf (.fam slot f)), stack, none)
+    | .error e => some (cur, stack, some e)
+  match fam, args with
+  | "const", [v] => (float? v).map fun v => (some (.leaf (.const (ConstSt.make v))), stack, none)
+  | "simple", prec :: _fixed :: k :: rest =>
+    match float? prec, k.toNat?, floats? rest with
+    | some prec, some k, some vp =>
+      if vp.length != 2 * k then none else
+      let (vs, ps) := unzip2 vp
+      match SimpleSt.make vs ps prec with
+      | .ok s => some (some (.leaf (.simple s)), stack, none)
+      | .error e => some (cur, stack, some e)
+    | _, _, _ => none
+  | "invar", [p, inv] =>
+    match float? p, float? inv with
+    | some p, some inv =>
+      match cur.bind leafOf? with
+      | none => some (cur, stack, some .bpp)
+      | some l =>
+        match InvarSt.make l p inv with
+        | .ok s => some (some (.invar s), stack, none)
+        | .error e => some (none, stack, some e)      -- the nested distribution was moved into the constructor
+    | _, _ => none
+  | "mix", k :: ws =>
+    match k.toNat?, floats? ws with
+    | some k, some ws =>
+      if ws.length != k then none else
+      if stack.length < k then some (cur, stack, some .bpp) else
+      let comps := (stack.drop (stack.length - k)).filterMap leafOf?
+      let stack' := stack.take (stack.length - k)
+      if comps.length != k then some (cur, stack', some .bpp) else
+      match MixSt.make comps ws with
+      | .ok s => some (some (.mix s), stack', none)
+      | .error e => some (cur, stack', some e)
+    | _, _ => none
+  | _, _ =>
   match famOfName fam, args with
   | some .gamma, [n, a, b, fl, off] =>
     match n.toNat?, float? a, float? b, bool? fl, float? off with
@@ -225,6 +275,7 @@ def judgeState (s : St) (es : List Ent) (a : Ans) : String :=
       let rs := resolvedF par f.dd
       let eqB := eqProbBranch par f.dd
       let sentinel := f.fam == .gamma && es.any (fun e => e.fn == "Q" && e.r == -1)
+      if !hasPar then firstFail [("values_strict_mono", valuesStrictMono d)] else
       firstFail (
         [("search_parent_quantile_sentinel", !sentinel),
          -- the equal-interval scheme assigns `distribution_[value] = mass` without looking for an
@@ -241,6 +292,11 @@ def judgeState (s : St) (es : List Ent) (a : Ans) : String :=
            ("value_in_own_class_median", !(rs && eqB && f.dd.median && !fallback) || valuesInClass d)]
          else []) ++
         (if wc then exploreClauses d eqB (!f.dd.median && eqB) rs a.xp a.xe else []))
+    | .leaf (.const _) => firstFail (compoundClauses [] a.main ++ [("n_classes", a.main.dist.length == 1 && a.main.n == 1)])
+    | .leaf (.simple ss) => firstFail (compoundClauses [] a.main ++
+        [("n_classes", a.main.dist.length == ss.vs.length && a.main.n == ss.vs.length),
+         ("values_strict_mono", valuesStrictMono a.main), ("bounds_monotone_in_domain", nondecr a.main.bounds)])
+    | _ => firstFail (compoundClauses a.subs a.main ++ [("values_strict_mono", valuesStrictMono a.main)])
 
 def stepChange (s : St) (impl : Option (List String)) (f : List Ent → St × Option Err) : St × String × String :=
   let ans := impl.bind parseAns
@@ -249,7 +305,7 @@ def stepChange (s : St) (impl : Option (List String)) (f : List Ent → St × Op
   let oTail := match ans with | some a => a.oTail | none => " ; o ; xp ; xe"
   let verdict := match impl, ans with
     | none, _ => "-"
-    | some _, none => "FAIL:parse"
+    | some t, none => if t.getLast? == some "none" then "ok" else "FAIL:parse"
     | some _, some a => judgeState s' es a
   (s', showState s' err oTail, verdict)
 
@@ -265,15 +321,21 @@ def implFloat? : Option (List String) → Option Float
   | _ => none
 
 
+/-- `getBounds()` (cpp:527-537) with the virtual `getLowerBound()` / `getUpperBound()` of the object -/
+def getBoundsV (c : CState Float) : Except Err (List Float) := do
+  let d := c.top
+  let inner ← (List.range (d.n - 1)).mapM (fun i => getBound d i)
+  return c.lowerBound :: inner ++ [c.upperBound]
+
 /-- look-ups at a value / bound / class value and cumulative queries at a class value -/
-def lookStep (d : DD Float) (noImpl : Bool) (op : List String) (impl : Option (List String)) : Option (String × String) :=
+def lookStep (d : DD Float) (allB : Except Err (List Float)) (noImpl : Bool) (op : List String) (impl : Option (List String)) : Option (String × String) :=
   let ver (l : List (String × Bool)) : String := if noImpl then "-" else firstFail l
   match op with
   | [lk, arg] =>
     if lk == "look" || lk == "lookb" || lk == "lookc" then
       let xo : Option (Except Err Float) :=
         if lk == "look" then (float? arg).map .ok
-        else if lk == "lookb" then arg.toNat?.map (fun i => match getBounds d with
+        else if lk == "lookb" then arg.toNat?.map (fun i => match allB with
           | .ok b => (match b[i]? with | some x => .ok x | none => .error .index)
           | .error e => .error e)
         else arg.toNat?.map (fun i => if i ≥ d.n then .error .index else getCategory d i)
@@ -323,8 +385,7 @@ def step (s : St) (op : List String) (impl : Option (List String)) : St × Strin
       let slot := s.nextSlot
       let s1 := { s with nextSlot := slot + 1 }
       match newDist (oracleOf es slot) slot famName args s1.cur s1.stack with
-      | some (.ok (c, stack)) => ({ s1 with cur := some c, stack := stack }, none)
-      | some (.error e) => (s1, some e)
+      | some (c, stack, e) => ({ s1 with cur := c, stack := stack }, e)
       | none => (s1, some .unreachable)
   | ["push"] =>
     match s.cur with
@@ -362,14 +423,14 @@ def step (s : St) (op : List String) (impl : Option (List String)) : St × Strin
   -- queries on the compound / family's top-level object
   let d := c.top
   let ver (l : List (String × Bool)) : String := if noImpl then "-" else firstFail l
-  match lookStep d noImpl op impl with
+  match lookStep d (getBoundsV c) noImpl op impl with
   | some (m, v) => (s, m, v)
   | none =>
   match op with
   | ["n"] => (s, toString d.n, ver [("n_classes", implNat? impl == some d.n)])
   | ["cats"] => (s, if d.cats.isEmpty then "-" else hxs d.cats, "-")
   | ["probs"] => (s, if d.probs.isEmpty then "-" else hxs d.probs, "-")
-  | ["bounds"] => (s, exceptStr hxs (getBounds d), "-")
+  | ["bounds"] => (s, exceptStr hxs (getBoundsV c), "-")
   | ["bound", i] =>
     match i.toNat? with
     | some i => (s, exceptStr hx (getBound d i), "-")
